@@ -96,6 +96,8 @@ Definition walk_entry (chk : list str -> decl -> cv -> res) (fs : args) (grp : o
   | Some (DClass r c) =>
       [{| e_branch := match w with CDict _ | CStr _ => true | _ => false end;
           e_key := pre ++ [k]; e_res := chk (pre ++ [k]) (DClass r c) w |}]
+  | Some (DOpt fs') =>
+      [{| e_branch := is_dict w; e_key := pre ++ [k]; e_res := chk (pre ++ [k]) (DOpt fs') w |}]
   | Some d =>
       [{| e_branch := false; e_key := pre ++ [k]; e_res := chk (pre ++ [k]) d w |}]
   end.
@@ -153,6 +155,11 @@ Lemma entry_list chk fs grp sub pre k w fs' :
   chk (pre ++ [k]) (DList fs') w = Ok.
 Proof. unfold walk_entry. intros -> F. inversion F; subst. exact H1. Qed.
 
+Lemma entry_opt chk fs grp sub pre k w fs' :
+  assoc k fs = Some (DOpt fs') -> Forall ev_ok (walk_entry chk fs grp sub pre k w) ->
+  chk (pre ++ [k]) (DOpt fs') w = Ok.
+Proof. unfold walk_entry. intros -> F. inversion F; subst. exact H1. Qed.
+
 (* ---- the reference semantics, entry by entry -------------------------------------------------------- *)
 Definition und_items (sl sc : bool) (fs' : args) (k : str) : nat -> list cv -> list (list seg) :=
   fix gi (i : nat) (items : list cv) :=
@@ -175,7 +182,7 @@ Definition und_entry (sl sc : bool) (fs : args) (k : str) (w : cv) : list (list 
   match assoc k fs with
   | None => if sl && leafless w then [] else [K k] :: map (cons (K k)) (all_keys sl w)
   | Some (DArg _) => []
-  | Some (DGroup fs') | Some (DData _ fs') => map (cons (K k)) (und sl sc fs' w)
+  | Some (DGroup fs') | Some (DData _ fs') | Some (DOpt fs') => map (cons (K k)) (und sl sc fs' w)
   | Some (DList fs') => match w with CList items => und_items sl sc fs' k 0%nat items | _ => [] end
   | Some (DClass _ cls) =>
       match w with
@@ -222,7 +229,7 @@ Qed.
 (* what an Ok answer of the action check must establish for list- and class-typed arguments *)
 Definition chk_und (d : decl) (w : cv) : Prop :=
   match d with
-  | DList _ | DClass _ _ => forall k fs, assoc k fs = Some d -> und_entry true true fs k w = []
+  | DList _ | DClass _ _ | DOpt _ => forall k fs, assoc k fs = Some d -> und_entry true true fs k w = []
   | _ => True
   end.
 
@@ -235,7 +242,7 @@ Proof.
   pose proof (walk_entries _ _ _ _ _ _ F k w HIn) as FE.
   rewrite Forall_forall in H. pose proof (H (k, w) HIn) as IHw. simpl in IHw.
   unfold und_entry. destruct (assoc k fs) as [d|] eqn:E.
-  - destruct d as [r|fs'|r fs'|r cls|fs'].
+  - destruct d as [r|fs'|r fs'|r cls|fs'|fs'].
     + reflexivity.
     + destruct (is_dict w) eqn:D.
       * rewrite (IHw fs' grp sub (pre ++ [k])); [reflexivity|]. eapply entry_group; eauto.
@@ -247,6 +254,8 @@ Proof.
     + pose proof (Hchk _ _ _ (entry_class _ _ _ _ _ _ _ _ _ E FE)) as C. simpl in C.
       specialize (C k fs E). unfold und_entry in C. rewrite E in C. exact C.
     + pose proof (Hchk _ _ _ (entry_list _ _ _ _ _ _ _ _ E FE)) as C. simpl in C.
+      specialize (C k fs E). unfold und_entry in C. rewrite E in C. exact C.
+    + pose proof (Hchk _ _ _ (entry_opt _ _ _ _ _ _ _ _ E FE)) as C. simpl in C.
       specialize (C k fs E). unfold und_entry in C. rewrite E in C. exact C.
   - rewrite (entry_unknown _ _ _ _ _ _ _ E FE). reflexivity.
 Qed.
@@ -268,7 +277,7 @@ Lemma chk_action_und f :
   (forall fs v, nested f false fs v = Ok -> und true true fs v = []) ->
   forall key d w, chk_action (nested f false) key d w = Ok -> chk_und d w.
 Proof.
-  intros IH key d w H. destruct d as [r|fs'|r fs'|r cls|fs']; simpl; auto; intros k fs E; unfold und_entry; rewrite E.
+  intros IH key d w H. destruct d as [r|fs'|r fs'|r cls|fs'|fs']; simpl; auto; intros k fs E; unfold und_entry; rewrite E.
   - (* class *)
     destruct w as [| | |l|]; try reflexivity.
     simpl in H.
@@ -288,6 +297,9 @@ Proof.
   - (* list *)
     destruct w as [| | | |items]; try reflexivity.
     simpl in H. exact (items_und f fs' k (fun i => map K key ++ [I i]) key IH items 0%nat H).
+  - (* Optional[dataclass] *)
+    destruct w as [| | |l|]; try reflexivity.
+    simpl in H. apply pushr_ok in H. rewrite (IH _ _ H). reflexivity.
 Qed.
 
 Lemma nested_ok_parts f fs v :
@@ -474,6 +486,7 @@ Section DeclInd.
   Hypothesis Hd : forall r fs, Forall (fun kd => P (snd kd)) fs -> P (DData r fs).
   Hypothesis Hc : forall r cls, P (DClass r cls).
   Hypothesis Hl : forall fs, P (DList fs).
+  Hypothesis Ho : forall fs, P (DOpt fs).
 
   Fixpoint decl_ind' (d : decl) : P d :=
     match d with
@@ -486,6 +499,7 @@ Section DeclInd.
                     match fs with [] => Forall_nil _ | kd :: t => Forall_cons kd (decl_ind' (snd kd)) (go t) end) fs)
     | DClass r cls => Hc r cls
     | DList fs => Hl fs
+    | DOpt fs => Ho fs
     end.
 End DeclInd.
 
@@ -534,6 +548,7 @@ Proof.
     + eapply Hf; eauto.
   - destruct r; [|destruct HIn]. destruct HIn as [<-|[]]. exists []. rewrite app_nil_r. reflexivity.
   - destruct HIn.
+  - destruct HIn.
 Qed.
 
 Lemma req_paths_head fs q : In q (req_paths fs) -> exists k d rest, In (k, d) fs /\ q = k :: rest.
@@ -563,6 +578,11 @@ Definition nm_init (ps : args) (k : str) : list (str * cv) -> list (list seg) :=
 Definition nm_entry (fs : args) (k : str) (w : cv) : list (list seg) :=
   match assoc k fs with
   | Some (DGroup fs') | Some (DData _ fs') => map (cons (K k)) (nest_missing fs' w)
+  | Some (DOpt fs') =>
+      match w with
+      | CDict _ => map (cons (K k)) (flat_missing fs' w ++ nest_missing fs' w)
+      | _ => []
+      end
   | Some (DList fs') => match w with CList items => nm_items fs' k 0%nat items | _ => [] end
   | Some (DClass _ cls) =>
       match w with
@@ -608,7 +628,7 @@ Qed.
 
 Definition chk_nm (d : decl) (w : cv) : Prop :=
   match d with
-  | DList _ | DClass _ _ => forall k fs, assoc k fs = Some d -> nm_entry fs k w = []
+  | DList _ | DClass _ _ | DOpt _ => forall k fs, assoc k fs = Some d -> nm_entry fs k w = []
   | _ => True
   end.
 
@@ -621,7 +641,7 @@ Proof.
   pose proof (walk_entries _ _ _ _ _ _ F k w HIn) as FE.
   rewrite Forall_forall in H. pose proof (H (k, w) HIn) as IHw. simpl in IHw.
   unfold nm_entry. destruct (assoc k fs) as [d|] eqn:E; [|reflexivity].
-  destruct d as [r|fs'|r fs'|r cls|fs'].
+  destruct d as [r|fs'|r fs'|r cls|fs'|fs'].
   - reflexivity.
   - destruct (is_dict w) eqn:D.
     + rewrite (IHw fs' grp sub (pre ++ [k])); [reflexivity|]. eapply entry_group; eauto.
@@ -633,6 +653,8 @@ Proof.
   - pose proof (Hchk _ _ _ (entry_class _ _ _ _ _ _ _ _ _ E FE)) as C. simpl in C.
     specialize (C k fs E). unfold nm_entry in C. rewrite E in C. exact C.
   - pose proof (Hchk _ _ _ (entry_list _ _ _ _ _ _ _ _ E FE)) as C. simpl in C.
+    specialize (C k fs E). unfold nm_entry in C. rewrite E in C. exact C.
+  - pose proof (Hchk _ _ _ (entry_opt _ _ _ _ _ _ _ _ E FE)) as C. simpl in C.
     specialize (C k fs E). unfold nm_entry in C. rewrite E in C. exact C.
 Qed.
 
@@ -673,7 +695,7 @@ Qed.
 Lemma chk_action_nm f :
   nested_req f -> forall key d w, chk_action (nested f false) key d w = Ok -> chk_nm d w.
 Proof.
-  intros IH key d w H. destruct d as [r|fs'|r fs'|r cls|fs']; simpl; auto; intros k fs E; unfold nm_entry; rewrite E.
+  intros IH key d w H. destruct d as [r|fs'|r fs'|r cls|fs'|fs']; simpl; auto; intros k fs E; unfold nm_entry; rewrite E.
   - (* class *)
     destruct w as [| |c|l|]; try reflexivity.
     + simpl in H. unfold args in *. destruct (assoc c cls) as [ps|]; [|reflexivity].
@@ -693,6 +715,9 @@ Proof.
   - (* list *)
     destruct w as [| | | |items]; try reflexivity.
     simpl in H. exact (items_nm f fs' k (fun i => map K key ++ [I i]) key IH items 0%nat H).
+  - (* Optional[dataclass] *)
+    destruct w as [| | |l|]; try reflexivity.
+    simpl in H. apply pushr_ok in H. destruct (IH _ _ H) as [A B]. rewrite A, B. reflexivity.
 Qed.
 
 Lemma nested_nm : forall f, nested_req f.
@@ -1044,7 +1069,7 @@ Proof. destruct l; [contradiction|discriminate]. Qed.
 
 Definition chk_unk (chk : list str -> decl -> cv -> res) : Prop :=
   forall key d w k fs, is_unk (chk key d w) -> assoc k fs = Some d ->
-    match d with DList _ | DClass _ _ => und_entry false false fs k w <> [] | DArg _ => False | _ => True end.
+    match d with DList _ | DClass _ _ | DOpt _ => und_entry false false fs k w <> [] | DArg _ => False | _ => True end.
 
 Lemma walk_entry_unk chk fs grp sub pre k w :
   chk_unk chk ->
@@ -1053,7 +1078,7 @@ Lemma walk_entry_unk chk fs grp sub pre k w :
 Proof.
   intros Hchk IHw [e [HIn U]]. unfold walk_entry in HIn. unfold und_entry.
   destruct (assoc k fs) as [d|] eqn:E.
-  - destruct d as [r|fs'|r fs'|r cls|fs'].
+  - destruct d as [r|fs'|r fs'|r cls|fs'|fs'].
     + destruct HIn as [<-|[]]. simpl in U. specialize (Hchk _ _ _ k fs U E). simpl in Hchk. destruct Hchk.
     + destruct (is_dict w) eqn:D.
       * apply in_app_or in HIn. destruct HIn as [HIn|HIn].
@@ -1065,6 +1090,8 @@ Proof.
         -- destruct (has_leaf w); [|destruct HIn]. destruct HIn as [<-|[]]. destruct U.
         -- apply map_ne. eapply IHw; eauto.
       * destruct HIn as [<-|[]]. simpl in U. destruct w; destruct U.
+    + destruct HIn as [<-|[]]. simpl in U. specialize (Hchk _ _ _ k fs U E). simpl in Hchk.
+      unfold und_entry in Hchk. rewrite E in Hchk. exact Hchk.
     + destruct HIn as [<-|[]]. simpl in U. specialize (Hchk _ _ _ k fs U E). simpl in Hchk.
       unfold und_entry in Hchk. rewrite E in Hchk. exact Hchk.
     + destruct HIn as [<-|[]]. simpl in U. specialize (Hchk _ _ _ k fs U E). simpl in Hchk.
@@ -1110,10 +1137,11 @@ Proof.
   rewrite und_cons. intros E. apply app_eq_nil in E. destruct E as [E1 E2].
   destruct U as [U|U]; [|exact (IHl H3 U E2)].
   unfold und_entry in E1. destruct (assoc k fs) as [d|] eqn:A; [|destruct U].
-  destruct d as [r|fs'|r fs'|r cls|fs'].
+  destruct d as [r|fs'|r fs'|r cls|fs'|fs'].
   - exact (Hchk _ _ _ k fs U A).
   - apply map_eq_nil in E1. exact (H2 _ _ U E1).
   - apply map_eq_nil in E1. exact (H2 _ _ U E1).
+  - pose proof (Hchk _ _ _ k fs U A) as X. simpl in X. unfold und_entry in X. rewrite A in X. exact (X E1).
   - pose proof (Hchk _ _ _ k fs U A) as X. simpl in X. unfold und_entry in X. rewrite A in X. exact (X E1).
   - pose proof (Hchk _ _ _ k fs U A) as X. simpl in X. unfold und_entry in X. rewrite A in X. exact (X E1).
 Qed.
@@ -1133,7 +1161,7 @@ Qed.
 Lemma chk_action_unk f len :
   (forall fs v, is_unk (nested f len fs v) -> und false false fs v <> []) -> chk_unk (chk_action (nested f len)).
 Proof.
-  intros IH key d w k fs U A. destruct d as [r|fs'|r fs'|r cls|fs']; cbv beta iota; try exact Logic.I.
+  intros IH key d w k fs U A. destruct d as [r|fs'|r fs'|r cls|fs'|fs']; cbv beta iota; try exact Logic.I.
   - destruct w; simpl in U; destruct U.
   - unfold und_entry. rewrite A.
     destruct w as [| |c|l|]; try (simpl in U; destruct U).
@@ -1152,6 +1180,9 @@ Proof.
   - unfold und_entry. rewrite A.
     destruct w as [| | | |items]; try (simpl in U; destruct U).
     simpl in U. exact (items_unk f len fs' k (fun i => map K key ++ [I i]) key IH items 0%nat U).
+  - unfold und_entry. rewrite A.
+    destruct w as [| | |l|]; try (simpl in U; destruct U).
+    simpl in U. apply is_unk_pushr in U. apply map_ne. exact (IH _ _ U).
 Qed.
 
 Lemma check_required1_not_unk pre fs v : ~ is_unk (check_required1 pre fs v).
